@@ -352,6 +352,8 @@ LEN_NAMES = ("len", "find", "rfind", "position", "rposition", "valid_up_to", "re
 
 _VAR_BODY = [None]      # body whose multi-definition locals may be resolved (set around a rule evaluation)
 _LEN_FACTS = [None]     # facts (to read closure bodies) while a length rule is evaluated
+_IN_PARENT = [False]
+_ALT_DEPTH = [0]
 
 
 def var_const_values(t):
@@ -385,8 +387,69 @@ def _is_boolish(t):
     return False
 
 
+def _subst_var(t, local, repl):
+    if not isinstance(t, tuple):
+        return t
+    if t and t[0] == "var" and len(t) > 2 and t[2] == local:
+        return repl
+    return tuple(_subst_var(x, local, repl) if isinstance(x, tuple) else x for x in t)
+
+
+def _find_var(t):
+    if not isinstance(t, tuple):
+        return None
+    if t and t[0] == "var" and len(t) > 2 and isinstance(t[2], int):
+        return t
+    for x in t:
+        if isinstance(x, tuple):
+            r = _find_var(x)
+            if r is not None:
+                return r
+    return None
+
+
+def var_alternatives(t, depth=0):
+    """A term that mentions a local with several definitions, once per definition (the local replaced by the value
+    assigned there); None when some definition is not a plain assignment / call result."""
+    b = _VAR_BODY[0]
+    v = _find_var(t)
+    if b is None or v is None or depth > 2:
+        return None
+    sy = K.sym_of(b)
+    alts = []
+    for d in b.defs().get(v[2], []):
+        if d[2] == "assign":
+            val = strip_deep(sy.rvalue(d[3]["rv"]))
+        elif d[2] == "call":
+            val = strip_deep(sy.call(d[3], d[0]))
+        else:
+            return None
+        if _find_var(val) is not None and render(val) == render(v):
+            return None
+        alts.append(strip_deep(_subst_var(t, v[2], val)))
+    if not alts or len(alts) > 6:
+        return None
+    return alts
+
+
 def len_leaves(t, acc):
     """Decompose a usize sum into (number of length-like leaves, constant part); None if something else occurs."""
+    if _find_var(strip_deep(t)) is not None and var_const_values(peel(t)) is None:
+        alts = var_alternatives(strip_deep(t), _ALT_DEPTH[0])
+        if alts:
+            best = [0, 0]
+            _ALT_DEPTH[0] += 1
+            try:
+                for a in alts:
+                    sub = [0, 0]
+                    if not len_leaves(a, sub):
+                        return False
+                    best = [max(best[0], sub[0]), max(best[1], sub[1])]
+            finally:
+                _ALT_DEPTH[0] -= 1
+            acc[0] += best[0]
+            acc[1] += best[1]
+            return True
     t = peel(t)
     k = t[0]
     if k == "var":
@@ -492,9 +555,40 @@ def len_leaves(t, acc):
             acc[0] += 1
             return True
     # an offset into the value's own buffer (invariant kept by the reviewed writers, R-WHO)
-    if k == "field" and len(t) > 3 and t[2] in OFFSET_FIELDS.get(t[3], ()) and peel(t[1])[0] == "param":
+    if k == "field" and len(t) > 3 and t[2] in OFFSET_FIELDS.get(t[3], ()) and peel(t[1])[0] in ("param", "upvar"):
         acc[0] += 1
         return True
+    # the element parameter of a closure handed to Option::map / map_or / and_then / is_some_and / filter: it is the
+    # payload of the Option — a length when that is one
+    if k == "param" and _VAR_BODY[0] is not None and _LEN_FACTS[0] is not None and "{closure" in _VAR_BODY[0].name:
+        cbody = _VAR_BODY[0]
+        if cbody.arg_count >= 2 and t[1] == cbody.local_name(2) and not _IN_PARENT[0]:
+            f_ = _LEN_FACTS[0]
+            parent = cbody.name.rsplit("::{closure", 1)[0]
+            for pn in [parent] + [x for x in f_.bodies if x.startswith(parent + "::{closure") and x != cbody.name]:
+                pb = f_.body(pn)
+                if pb is None:
+                    continue
+                for c in pb.calls():
+                    if c.name not in ("map", "map_or", "and_then", "is_some_and", "filter", "map_or_else") or \
+                            not re.match(r"^(std|core)::option::Option::<", c.fn or ""):
+                        continue
+                    a = K.arg_terms(c)
+                    if not any(strip(x)[0] == "closure" and strip(x)[1] == cbody.name for x in a[1:]):
+                        continue
+                    sub = [0, 0]
+                    _IN_PARENT[0] = True
+                    old = _VAR_BODY[0]
+                    _VAR_BODY[0] = pb
+                    try:
+                        ok_ = len_leaves(a[0], sub)
+                    finally:
+                        _VAR_BODY[0] = old
+                        _IN_PARENT[0] = False
+                    if ok_:
+                        acc[0] += sub[0]
+                        acc[1] += sub[1]
+                        return True
     return False
 
 
@@ -1171,6 +1265,21 @@ def rule_nonempty(f, site):
         rng = site.ops[1]
         if rng[0] == "agg" and rng[2] == "RangeFrom" and const_eval(dict(rng[3]).get("start")) == 1:
             base = strip_deep(site.ops[0])
+        elif rng[0] == "agg" and rng[2] == "RangeTo":
+            # `s[..s.len() - 1]`
+            pc = peel(dict(rng[3]).get("end"))
+            if pc[0] == "field" and pc[2] in ("0", 0) and pc[1][0] == "bin" and pc[1][1] == "SubWithOverflow" and const_eval(pc[1][3]) == 1:
+                ln = peel(pc[1][2])
+                bs = strip_deep(site.ops[0])
+                inner = ln[1] if ln[0] == "len" else (ln[2][0] if ln[0] == "call" and (ln[3] or {}).get("name") == "len" and len(ln[2]) == 1 else None)
+                if inner is not None and render(strip_deep(inner)) == render(bs):
+                    base = bs
+    elif site.kind == "assert:Overflow:Sub" and len(site.ops) == 2 and const_eval(site.ops[1]) == 1:
+        ln = peel(site.ops[0])            # `s.len() - 1`
+        if ln[0] == "len":
+            base = strip_deep(ln[1])
+        elif ln[0] == "call" and (ln[3] or {}).get("name") == "len" and len(ln[2]) == 1 and (ln[3] or {}).get("krate") in ("core", "std", "alloc", "bytes"):
+            base = strip_deep(ln[2][0])
     if base is None:
         return None
     sy = K.sym_of(b)
@@ -1178,8 +1287,9 @@ def rule_nonempty(f, site):
     def nonempty_rx(text):
         bt = re.escape(text)
         pre = r"(slice::|str::|Vec::|Bytes::)?"
-        return re.compile(r"^(!(slice|str|Vec|Bytes)::is_empty\(%s\)|0 != %slen\(%s\)|%slen\(%s\) != 0|0 < %slen\(%s\)|1 <= %slen\(%s\))$"
-                          % (bt, pre, bt, pre, bt, pre, bt, pre, bt))
+        return re.compile(r"^(!(slice|str|Vec|Bytes)::is_empty\(%s\)|0 != %slen\(%s\)|%slen\(%s\) != 0|0 < %slen\(%s\)|1 <= %slen\(%s\)"
+                          r"|(str|slice)::(ends_with|starts_with)\(%s, (\d+|b'[^']+')\))$"
+                          % (bt, pre, bt, pre, bt, pre, bt, pre, bt, bt))
 
     def tests(rx):
         """[(switch block, block entered when the literal holds)] for bool switches testing a literal matching rx."""
@@ -1302,6 +1412,39 @@ def rule_vec_writer(f, site):
             "%d functions it can reach builds an io::Error or does other I/O" % (short(g), len(reach)))
 
 
+BUFFER_FIELDS = {"uri::Rsync": "bytes", "uri::Https": "uri"}
+
+
+def rule_invariant_offsets(f, site):
+    """P0-invariant: `self.buf[self.off..]`, `self.buf[..self.off]`, `self.buf[self.a..self.b]` where the offsets are the
+    type's own offset fields into its own buffer — in bounds by the invariant that only the reviewed writers (R-WHO)
+    can touch."""
+    if site.kind != "call:index" or len(site.ops) != 2:
+        return None
+    base = peel(site.ops[0])
+    rng = site.ops[1]
+    if rng[0] != "agg" or rng[2] not in ("RangeFrom", "RangeTo", "Range"):
+        return None
+    # the buffer: self.<buffer field> (possibly seen through as_ref / deref / as_slice)
+    while base[0] == "call" and (base[3] or {}).get("name") in ("as_ref", "deref", "as_slice", "as_bytes") and len(base[2]) == 1:
+        base = peel(base[2][0])
+    if not (base[0] == "field" and len(base) > 3 and base[3] in BUFFER_FIELDS and base[2] == BUFFER_FIELDS[base[3]]
+            and peel(base[1])[0] in ("param", "upvar")):
+        return None
+    adt = base[3]
+    owner = render(peel(base[1]))
+    for _, v in rng[3]:
+        v = peel(v)
+        if not (v[0] == "field" and len(v) > 3 and v[3] == adt and v[2] in OFFSET_FIELDS.get(adt, ()) and render(peel(v[1])) == owner):
+            return None
+    if rng[2] == "Range":
+        d = dict(rng[3])
+        order = list(OFFSET_FIELDS[adt])
+        if order.index(peel(d["start"])[2]) > order.index(peel(d["end"])[2]):
+            return None
+    return "slices the value's own buffer at its own offset field(s); their ordering and bounds are the type invariant kept by the reviewed writers"
+
+
 RULES = [("P0-const", lambda f, s, env: rule_const(s)),
          ("P0-arg", lambda f, s, env: rule_arg_const(s)),
          ("P0-len", lambda f, s, env: (_LEN_FACTS.__setitem__(0, f), rule_len_arith(s))[1]),
@@ -1311,6 +1454,7 @@ RULES = [("P0-const", lambda f, s, env: rule_const(s)),
          ("P0-windows", lambda f, s, env: rule_windows(f, s)),
          ("P0-nonempty", lambda f, s, env: rule_nonempty(f, s)),
          ("P0-vecwriter", lambda f, s, env: rule_vec_writer(f, s)),
+         ("P0-invariant", lambda f, s, env: rule_invariant_offsets(f, s)),
          ("P1-redecode", lambda f, s, env: rule_redecode(f, s, env["ber"], env["memo"])),
          ("P0-absint", lambda f, s, env: rule_absint(f, s))]
 
@@ -1542,8 +1686,16 @@ def leaf_signature(shape):
     """What a construct computes from, whatever the producers in between are called: the integer constants and the
     input roots (self paths, positional parameters, captures) of its operands."""
     consts = sorted(re.findall(r"(?<![\w.#%$:])\d+(?![\w.]|\s*:)", shape))
-    roots = sorted(set(re.findall(r"(?<![\w.:])(?:self(?:\.\w+)*|%\d+|\^\w*)", shape)))
+    # roots by name only: `self.bits` and `PublicKey::bits(self)` are the same input; a capture (`^`) inside a closure
+    # stands for whatever was captured, so it is compatible with any root
+    roots = sorted(set(re.findall(r"(?<![\w.:])(?:self|%\d+|\^)", shape)))
     return (tuple(consts), tuple(roots))
+
+
+def signatures_agree(a, b):
+    if a[0] != b[0]:
+        return False
+    return a[1] == b[1] or "^" in a[1] or "^" in b[1]
 
 
 def resolve_with_table(f, cl, table):
@@ -1559,7 +1711,7 @@ def resolve_with_table(f, cl, table):
     for k, row in table.items():
         if k not in present:
             free_rows.setdefault((row["kind"], re.sub(r"%\d+", "%", row["shape"])), []).append(row)
-            free_fn.setdefault((row["fn"], row["kind"], leaf_signature(row["shape"])), []).append((k, row))
+            free_fn.setdefault((row["fn"], row["kind"]), []).append((k, row, leaf_signature(row["shape"])))
     taken = set()
     out = []
     for s, rule, why_ in cl:
@@ -1571,8 +1723,9 @@ def resolve_with_table(f, cl, table):
             row = free_rows[(s.kind, re.sub(r"%\d+", "%", s.shape))][0]
             how = " [row of %s: the construct moved]" % short(row["fn"])
         if rule is None and row is None:
-            for k2, r2 in free_fn.get((s.fn, s.kind, leaf_signature(s.shape)), []):
-                if k2 not in taken:
+            mysig = leaf_signature(s.shape)
+            for k2, r2, sig2 in free_fn.get((s.fn, s.kind), []):
+                if k2 not in taken and signatures_agree(mysig, sig2):
                     taken.add(k2)
                     row, used = r2, k2
                     how = " [row written for `%s`: same constants and inputs, re-spelt]" % r2["shape"][:80]
